@@ -279,8 +279,17 @@ func (d *Dynamic) Draw(ctx vxfw.DrawContext) (vxfw.Surface, error) {
 			// The bottom row is beyond the height, adjust all the children
 			// so that the bottom of the cursored widget is at the bottom of
 			// the screen
+			adj := 0
 			if bRow > int(ctx.Max.Height) {
-				adj := int(ctx.Max.Height) - bRow
+				adj = int(ctx.Max.Height) - bRow
+			}
+			// The top row is above the viewport (the widget is too
+			// large, or the widgets above it changed their height):
+			// the top portion is in view
+			if ch.Origin.Row+adj < 0 {
+				adj = -ch.Origin.Row
+			}
+			if adj != 0 {
 				for i, ch := range s.Children {
 					ch.Origin.Row += adj
 					s.Children[i] = ch
